@@ -122,6 +122,9 @@ def val_of(term):
 # symbolic values
 # --------------------------------------------------------------------------
 
+_INF = float('inf')
+
+
 class SBool:
     __slots__ = ('e',)
 
@@ -231,6 +234,9 @@ class SReal:
     def _cmp(self, o, f):
         if not _num(o):
             return NotImplemented
+        if isinstance(o, float) and (o == _INF or o == -_INF):
+            # comparison of a (finite) symbolic real with an infinite constant
+            return bool(f(0.0, o))
         if isinstance(self, SInt) and (isinstance(o, SInt) or (isinstance(o, int) and not isinstance(o, bool))):
             return SBool(f(self.e, lift_int(o)))
         return SBool(f(lift_real(self), lift_real(o)))
@@ -475,7 +481,7 @@ class Ctx:
         self.l10_memo = {}
         self.axioms_used = set()
         self.markers = []    # format markers (value, spec)
-        self.format_mode = None
+        self.format_mode = 'marker'   # rendering/logging of symbolic reals yields tokens
         self.notes = {}
         self.relaxed = []
         self.extra_constraints = []
